@@ -54,6 +54,10 @@ type C6Stage struct {
 	Cost2 string `json:"cost2"`
 	// cross/merge/concat: lazy stages applied to numbers(OLen)[.number(..)] - the other operand is a PIPELINE
 	Sub []C6Stage `json:"sub,omitempty"`
+	// nest: the mapped closure builds numbers(OLen).map(y->y+k).<Sub[0]> per item and consumes it by NC (index J, first, size, sum, reduce)
+	// reent: let b=numbers(OLen).number(..); the stage indexes b[J]; terminal index: PIPELINE[J]
+	NC string `json:"nc,omitempty"`
+	J  int64  `json:"j,omitempty"`
 }
 
 type C6Case struct {
@@ -66,11 +70,43 @@ type C6Case struct {
 }
 
 var c6StageKinds = []string{"map", "accept", "combine", "combine3", "combineN", "iir", "iirCombine", "number", "compact", "cross", "merge", "top", "skip", "fsm", "concat"}
+// list-valued elements that ESCAPE from a stage's closure and are read by a map behind it (which may run on workers)
+var c6EscKinds = []string{"escCombineN", "escCombineNLazy", "escCombine", "escCross", "escGroup"}
+var c6NestInner = []string{"number", "combine", "combine3", "combineN", "iir", "iirCombine", "compact", "cross", "merge"}
+var c6NestCons = []string{"index", "first", "size", "sum", "reduce"}
+
+func c6IsPar(kind string) bool { // stages whose (last) closure runs through MapAuto/FilterAuto
+	return kind == "map" || kind == "accept" || kind == "nest" || strings.HasPrefix(kind, "esc")
+}
+
+// the host-function id whose goroutine set shows the switch of a parallel stage
+func (s C6Stage) parID() int {
+	if s.Kind == "nest" {
+		return s.Sub[0].ID
+	}
+	return s.ID
+}
+
 var c6SelfKinds = []string{"crossSelf", "mergeSelf", "concatSelf"} // let m = <pipeline so far>; m.cross(m,..) | m.merge(m,..) | (m+m)
-var c6TermKinds = []string{"twice", "reduce", "mapReduce", "sum", "size", "string", "first", "last", "minMax", "visit", "order", "orderRev", "groupByInt", "groupByString", "groupByEqual", "multiUse"}
+var c6TermKinds = []string{"index", "twice", "reduce", "mapReduce", "sum", "size", "string", "first", "last", "minMax", "visit", "order", "orderRev", "groupByInt", "groupByString", "groupByEqual", "multiUse"}
 
 func c6Coq(kind string) string {
 	return strings.ToUpper(kind[:1]) + kind[1:]
+}
+
+// the Coq constructor term of a stage kind
+func (s C6Stage) coqKind() string {
+	switch {
+	case strings.HasPrefix(s.Kind, "esc"):
+		return "(KEsc E" + s.Kind[3:] + ")"
+	case s.Kind == "nest":
+		return fmt.Sprintf("(KNest K%s NC%s %s %s)", c6Coq(s.Sub[0].Kind), c6Coq(s.NC), c06CoqZ(s.OLen), c06CoqZ(s.J))
+	case s.Kind == "reent":
+		return fmt.Sprintf("(KReent %s %s)", c06CoqZ(s.OLen), c06CoqZ(s.J))
+	case s.Kind == "index":
+		return fmt.Sprintf("(TIndex %s)", c06CoqZ(s.J))
+	}
+	return "K" + c6Coq(s.Kind)
 }
 
 func lin1s(s C6Stage, a, b int64, x string) string {
@@ -134,6 +170,31 @@ func (s C6Stage) render(prev string) string {
 		return prev + fmt.Sprintf(".fsm((s,i)->goto(%s)).map(s->h(%d,s.state))", h(fmt.Sprintf("(%d*s.state+i+%d)%%7", s.A, s.B)), s.ID2)
 	case "concat":
 		return "(" + prev + "+" + s.other() + ")"
+	case "escCombineN":
+		return prev + fmt.Sprintf(".combineN(%d,g->g).map(g->%s)", s.K, h(lin2s(s.A, s.B, "g[0]", fmt.Sprintf("g[%d]", s.K-1))))
+	case "escCombineNLazy":
+		return prev + fmt.Sprintf(".combineN(%d,g->g.map(x->x+1)).map(g->%s)", s.K, h(lin1s(s, s.A, s.B, "g.sum()")))
+	case "escCombine":
+		return prev + ".combine((p,q)->[p,q]).map(g->" + h(lin2s(s.A, s.B, "g[0]", "g[1]")) + ")"
+	case "escCross":
+		return prev + ".cross(" + s.other() + ",(p,q)->[p,q]).map(g->" + h(lin2s(s.A, s.B, "g[0]", "g[1]")) + ")"
+	case "escGroup":
+		return prev + fmt.Sprintf(".groupByEqual(x->x%%%d).map(m->%s)", s.K, h(lin2s(s.A, s.B, "m.key", "m.values.sum()")))
+	case "nest":
+		inner := s.Sub[0].render(fmt.Sprintf("numbers(%d).map(y->y+k)", s.OLen))
+		switch s.NC {
+		case "index":
+			inner += fmt.Sprintf("[%d]", s.J)
+		case "reduce":
+			inner += ".reduce((s,v)->(s+v)%1009)"
+		default:
+			inner += "." + s.NC + "()"
+		}
+		return prev + ".map(k->" + inner + ")"
+	case "reent": // b<ID> is let-bound in front of the program
+		return prev + ".number((i,x)->" + h(fmt.Sprintf("(b%d[%d]+%d*i+x+%d)%%1009", s.ID, s.J, s.A, s.B)) + ")"
+	case "index":
+		return prev + fmt.Sprintf("[%d]", s.J)
 	case "crossSelf": // prev is the let-bound name
 		return prev + ".cross(" + prev + ",(p,q)->" + h(lin2s(s.A, s.B, "p", "q")) + ")"
 	case "mergeSelf":
@@ -174,6 +235,9 @@ func (c *C6Case) Text() string {
 	lets := ""
 	t := fmt.Sprintf("numbers(%d)", c.N)
 	step := func(i int, s C6Stage) {
+		if s.Kind == "reent" {
+			lets += fmt.Sprintf("let b%d=numbers(%d).number((i,y)->h(%d,%s));", s.ID, s.OLen, s.ID2, lin2s(s.A2, s.B2, "i", "y"))
+		}
 		if c6IsSelf(s.Kind) {
 			name := fmt.Sprintf("m%d", i)
 			lets += "let " + name + "=" + t + ";"
@@ -190,7 +254,7 @@ func (c *C6Case) Text() string {
 
 func c6Calls(kind string, s C6Stage) bool { // does the stage call a closure on the stack it was handed?
 	switch kind {
-	case "map", "accept", "top", "skip", "sum", "size", "string", "first", "last", "multiUse", "concatSelf":
+	case "map", "accept", "top", "skip", "sum", "size", "string", "first", "last", "multiUse", "concatSelf", "nest", "index":
 		return false
 	case "concat":
 		return s.ONum
@@ -340,6 +404,87 @@ func (s C6Stage) ref(l []int64) []int64 {
 		out = append(append(out, l...), s.otherRef()...)
 	case "concatSelf":
 		out = append(append(out, l...), l...)
+	case "escCombineN", "escCombineNLazy":
+		n := int(s.K)
+		for i := 0; i+n <= len(l); i++ {
+			w := l[i : i+n]
+			if s.Kind == "escCombineN" {
+				out = append(out, h(l2(s.A, s.B, w[0], w[n-1])))
+			} else {
+				sum := int64(n)
+				for _, v := range w {
+					sum += v
+				}
+				out = append(out, h(l1(s.A, s.B, sum)))
+			}
+		}
+	case "escCombine":
+		for i := 0; i+1 < len(l); i++ {
+			out = append(out, h(l2(s.A, s.B, l[i], l[i+1])))
+		}
+	case "escCross":
+		o := s.otherRef()
+		for _, x := range l {
+			for _, y := range o {
+				out = append(out, h(l2(s.A, s.B, x, y)))
+			}
+		}
+	case "escGroup": // groupByEqual: groups in the order of first appearance of their key
+		var keys []int64
+		sums := map[int64]int64{}
+		for _, x := range l {
+			k := x % s.K
+			if _, ok := sums[k]; !ok {
+				keys = append(keys, k)
+			}
+			sums[k] += x
+		}
+		for _, k := range keys {
+			out = append(out, h(l2(s.A, s.B, k, sums[k])))
+		}
+	case "nest":
+		for _, k := range l {
+			in := c6Numbers(s.OLen)
+			for i := range in {
+				in[i] += k
+			}
+			in = s.Sub[0].ref(in)
+			switch s.NC {
+			case "index":
+				if int(s.J) >= len(in) {
+					panic(c6fail{})
+				}
+				out = append(out, in[s.J])
+			case "first":
+				if len(in) == 0 {
+					panic(c6fail{})
+				}
+				out = append(out, in[0])
+			case "size":
+				out = append(out, int64(len(in)))
+			case "sum", "reduce":
+				if len(in) == 0 {
+					panic(c6fail{})
+				}
+				sum := in[0]
+				for _, v := range in[1:] {
+					if s.NC == "reduce" {
+						sum = (sum + v) % 1009
+					} else {
+						sum += v
+					}
+				}
+				out = append(out, sum)
+			}
+		}
+	case "reent":
+		if len(l) > 0 && s.J >= s.OLen {
+			panic(c6fail{})
+		}
+		c := l2(s.A2, s.B2, s.J, s.J)
+		for i, x := range l {
+			out = append(out, h((c+s.A*int64(i)+x+s.B)%1009))
+		}
 	default:
 		panic("ref: unknown stage " + s.Kind)
 	}
@@ -360,6 +505,11 @@ func (s C6Stage) refTerm(l []int64) []int64 {
 			panic(c6fail{})
 		}
 		return []int64{fold(l[0], l[1:])}
+	case "index":
+		if int(s.J) >= len(l) {
+			panic(c6fail{})
+		}
+		return []int64{l[s.J]}
 	case "mapReduce", "visit":
 		return []int64{fold(s.K, l)}
 	case "twice":
@@ -505,13 +655,25 @@ func (c *C6Case) coq(id int, ncpu int, switched map[int]bool, obs []int64, ok bo
 		for _, u := range s.Sub {
 			sub = append(sub, one(u))
 		}
-		return fmt.Sprintf("(PS K%s %s %s)", c6Coq(s.Kind), s.coqSP(switched[s.ID], c.Seed+int64(s.ID)), CoqList(sub))
+		if s.Kind == "nest" { // the parameters of the inner stage; the switch is seen on the inner closure's goroutines
+			in := s.Sub[0]
+			in.Fail = -1
+			return fmt.Sprintf("(PS %s %s [])", s.coqKind(), in.coqSP(switched[in.ID], c.Seed+int64(s.ID)))
+		}
+		return fmt.Sprintf("(PS %s %s %s)", s.coqKind(), s.coqSP(switched[s.ID], c.Seed+int64(s.ID)), CoqList(sub))
 	}
 	var st []string
 	for _, s := range c.Stages {
 		st = append(st, one(s))
 	}
-	return fmt.Sprintf("(%d%%N, (%d%%N, %s, %s, T%s, %s), %s)", id, ncpu, c06CoqZ(c.N), CoqList(st), c6Coq(c.Term.Kind), c.Term.coqSP(false, 0), c06CoqObs(obs, ok))
+	return fmt.Sprintf("(%d%%N, (%d%%N, %s, %s, %s, %s), %s)", id, ncpu, c06CoqZ(c.N), CoqList(st), c.Term.coqTermKind(), c.Term.coqSP(false, 0), c06CoqObs(obs, ok))
+}
+
+func (s C6Stage) coqTermKind() string {
+	if s.Kind == "index" {
+		return s.coqKind()
+	}
+	return "T" + c6Coq(s.Kind)
 }
 
 // ---------------------------------------------------------------- worker
@@ -757,8 +919,8 @@ func cmdC06Worker(seed int64, tier, outDir string) {
 		var r C6Result
 		select {
 		case r = <-done:
-		case <-time.After(30 * time.Second):
-			r = C6Result{ID: c.ID, Hang: true, Err: "no result after 30 s", NCPU: runtime.NumCPU(), Procs: runtime.GOMAXPROCS(0)}
+		case <-time.After(90 * time.Second):
+			r = C6Result{ID: c.ID, Hang: true, Err: "no result after 90 s", NCPU: runtime.NumCPU(), Procs: runtime.GOMAXPROCS(0)}
 		}
 		line, _ := json.Marshal(r)
 		w.Write(line)
@@ -819,7 +981,7 @@ func (r *Rng) c6StageD(kind string, id *int, depth int) C6Stage {
 	*id += 2
 	s := C6Stage{Kind: kind, ID: *id, ID2: *id + 1, A: int64(1 + r.Pick(9)), B: int64(r.Pick(50)), A2: int64(1 + r.Pick(9)), B2: int64(r.Pick(50)),
 		Fail: -1, Cost: "none", Cost2: "none"}
-	s.Cost = r.c6Cost(kind == "map" || kind == "accept")
+	s.Cost = r.c6Cost(c6IsPar(kind))
 	switch kind {
 	case "accept":
 		s.K = int64([]int{2, 3, 5}[r.Pick(3)])
@@ -844,6 +1006,34 @@ func (r *Rng) c6StageD(kind string, id *int, depth int) C6Stage {
 	case "concat":
 		s.OLen = int64(r.Pick(30))
 		s.ONum = r.Chance(0.6)
+	case "escCombineN", "escCombineNLazy":
+		s.K = int64(1 + r.Pick(4))
+	case "escGroup":
+		s.K = int64(2 + r.Pick(6))
+	case "escCross":
+		s.OLen = int64(1 + r.Pick(3))
+		s.ONum = r.Chance(0.5)
+	case "nest":
+		s.OLen = int64(3 + r.Pick(4))
+		s.J = int64(r.Pick(3))
+		s.NC = c6NestCons[r.Pick(len(c6NestCons))]
+		if r.Chance(0.4) {
+			s.NC = "index"
+		}
+		in := r.c6StageD(c6NestInner[r.Pick(len(c6NestInner))], id, 0)
+		in.Cost, s.Cost = s.Cost, "none" // the pause sits in the closure of the inner stage
+		if in.Kind == "combineN" && in.K > 2 {
+			in.K = 2
+		}
+		if in.Kind == "cross" || in.Kind == "merge" {
+			in.OLen = int64(1 + r.Pick(3))
+		}
+		s.Sub = []C6Stage{in}
+	case "reent":
+		s.OLen = int64(2 + r.Pick(5))
+		s.J = int64(r.Pick(int(s.OLen)))
+	case "index":
+		s.J = int64(r.Pick(3))
 	case "mapReduce", "visit", "twice":
 		s.K = int64(r.Pick(100))
 	case "groupByInt", "groupByString", "groupByEqual":
@@ -857,6 +1047,20 @@ func (r *Rng) c6StageD(kind string, id *int, depth int) C6Stage {
 		r.c6Sub(&s, id, depth, 120)
 	}
 	return s
+}
+
+// the reference elements behind stage s at generation time; a stage whose evaluation fails (index out of range in a
+// nested list ...) makes the whole pipeline fail, nothing flows on
+func c6SafeRef(s C6Stage, l []int64) (out []int64) {
+	defer func() {
+		if r := recover(); r != nil {
+			if _, is := r.(c6fail); !is {
+				panic(r)
+			}
+			out = []int64{}
+		}
+	}()
+	return s.ref(l)
 }
 
 // boosted shape: closure-calling stages on both sides of a map/accept whose switch is forced
@@ -882,8 +1086,12 @@ func (r *Rng) c6Gen(id int, big bool) *C6Case {
 	for i := 0; i < ns; i++ {
 		var kind string
 		switch x := r.Pick(20); {
-		case x < 6:
+		case x < 5:
 			kind = []string{"map", "accept"}[r.Pick(2)]
+		case x < 7:
+			kind = c6EscKinds[r.Pick(len(c6EscKinds))]
+		case x < 9:
+			kind = "nest"
 		case x < 13:
 			kind = callers[r.Pick(len(callers))]
 		case x < 15:
@@ -891,24 +1099,41 @@ func (r *Rng) c6Gen(id int, big bool) *C6Case {
 		default:
 			kind = c6StageKinds[r.Pick(len(c6StageKinds))]
 		}
+		if kind == "escCross" && len(cur) > 500 {
+			kind = "escCombine"
+		}
 		if (kind == "cross" && len(cur) > 500) || (kind == "crossSelf" && len(cur) > 40) || (c6IsSelf(kind) && len(cur) > 1500) {
 			kind = "number"
 		}
 		s := r.c6Stage(kind, &hid)
-		if big && s.Cost == "all" {
+		if (big || (kind == "nest" && len(cur) > 60)) && s.Cost == "all" {
 			s.Cost = "front"
 		}
-		cur = s.ref(cur)
+		if kind == "nest" && s.Sub[0].Cost == "all" && len(cur) > 60 {
+			s.Sub[0].Cost = "front"
+		}
+		cur = c6SafeRef(s, cur)
 		c.Stages = append(c.Stages, s)
 	}
 	tk := c6TermKinds[r.Pick(len(c6TermKinds))]
 	if r.Chance(0.35) {
 		tk = []string{"reduce", "mapReduce", "visit", "minMax"}[r.Pick(4)]
 	}
+	if r.Chance(0.06) && len(cur) > 0 && len(cur) < 400 { // the sequential re-entrant index access
+		s := r.c6Stage("reent", &hid)
+		cur = c6SafeRef(s, cur)
+		c.Stages = append(c.Stages, s)
+		tk = "index"
+	}
 	c.Term = r.c6Stage(tk, &hid)
 	c.Term.Cost = "none"
 	// failing element: only where the whole list is consumed (no top / first), see the property's quantifier
 	early := tk == "first"
+	for _, s := range c.Stages {
+		if s.Kind == "nest" { // a failing inner evaluation is an ordinary error of the mapped closure: allowed, but keep the generator simple
+			_ = s
+		}
+	}
 	for _, s := range c.Stages {
 		if s.Kind == "top" {
 			early = true
@@ -918,7 +1143,7 @@ func (r *Rng) c6Gen(id int, big bool) *C6Case {
 		cand := []*C6Stage{}
 		for i := range c.Stages {
 			switch c.Stages[i].Kind {
-			case "top", "skip", "concat", "concatSelf":
+			case "top", "skip", "concat", "concatSelf", "nest":
 			default:
 				cand = append(cand, &c.Stages[i])
 			}
@@ -989,6 +1214,18 @@ func c6Corpus() []*C6Case {
 		mk(200, C6Stage{Kind: "twice", A: 2, B: 1, K: 3}, num, front, C6Stage{Kind: "merge", OLen: 40, ONum: true, OA: 2, OB: 1}),
 		mk(30, red, num, front, C6Stage{Kind: "crossSelf", A: 2, B: 1}),
 		mk(150, C6Stage{Kind: "visit", A: 1, B: 2, K: 4}, num, front, C6Stage{Kind: "mergeSelf"}),
+		// a list that escapes from the producing closure is read by a map that runs on workers
+		mk(90, C6Stage{Kind: "string"}, C6Stage{Kind: "escCombineN", A: 1000 % 1009, B: 0, K: 3, Cost: "all"}),
+		mk(90, C6Stage{Kind: "string"}, C6Stage{Kind: "escCombineN", A: 1, B: 0, K: 1, Cost: "all"}),
+		mk(90, red, C6Stage{Kind: "escCombineNLazy", A: 1, B: 0, K: 4, Cost: "front"}),
+		mk(120, C6Stage{Kind: "string"}, num, C6Stage{Kind: "escCombine", A: 3, B: 1, Cost: "front"}, C6Stage{Kind: "escGroup", A: 2, B: 1, K: 5, Cost: "none"}),
+		// the mapped closure builds a lazy list with a closure stage per item and indexes it (workers: one evaluation context each)
+		mk(90, C6Stage{Kind: "string"}, C6Stage{Kind: "nest", OLen: 4, J: 2, NC: "index", Sub: []C6Stage{{Kind: "number", ID: 90, ID2: 91, A: 10, B: 0, Fail: -1, Cost: "all", Cost2: "none"}}}),
+		mk(90, C6Stage{Kind: "string"}, C6Stage{Kind: "nest", OLen: 6, J: 3, NC: "index", Sub: []C6Stage{{Kind: "combine", ID: 90, ID2: 91, A: 10, B: 0, Fail: -1, Cost: "all", Cost2: "none"}}}),
+		mk(90, red, C6Stage{Kind: "nest", OLen: 5, J: 0, NC: "sum", Sub: []C6Stage{{Kind: "iir", ID: 90, ID2: 91, A: 1, B: 0, A2: 1, B2: 0, Fail: -1, Cost: "front", Cost2: "none"}}}),
+		// sequential re-entrant index access: the stage indexes an unevaluated let-bound closure-stage list while it is itself evaluated by an index access
+		mk(3, C6Stage{Kind: "index", J: 0}, C6Stage{Kind: "reent", A: 0, B: 0, A2: 0, B2: 0, OLen: 5, J: 1}),
+		mk(40, C6Stage{Kind: "index", J: 7}, num, C6Stage{Kind: "reent", A: 2, B: 1, A2: 3, B2: 2, OLen: 6, J: 4}),
 		mk(13, C6Stage{Kind: "string"}, num, front, num),
 	}
 }
@@ -1161,9 +1398,15 @@ func c6ObsString(o []int64, ok bool) string {
 func c6Signature(c *C6Case, switched map[int]bool, symptom string) string {
 	all := append(append([]C6Stage{}, c.Stages...), c.Term)
 	for i, s := range c.Stages {
-		boundary := ((s.Kind == "map" || s.Kind == "accept") && switched[s.ID]) || s.Kind == "merge" || (s.Kind == "fsm" && switched[s.ID2])
+		boundary := (c6IsPar(s.Kind) && switched[s.parID()]) || s.Kind == "merge" || (s.Kind == "fsm" && switched[s.ID2])
 		if !boundary {
 			continue
+		}
+		if s.Kind == "nest" { // workers of ONE stage evaluate per-item lazy lists with closure stages
+			return fmt.Sprintf("nest(%s.%s)/%s", s.Sub[0].Kind, s.NC, symptom)
+		}
+		if strings.HasPrefix(s.Kind, "esc") { // a list escapes from the producing closure and is read on the workers
+			return fmt.Sprintf("%s/%s", s.Kind, symptom)
 		}
 		up, down := "", ""
 		if s.Kind == "fsm" { // the map(s->s.state) that belongs to the fsm stage switched: fsm itself is the upstream caller
@@ -1189,6 +1432,13 @@ func c6Signature(c *C6Case, switched map[int]bool, symptom string) string {
 		}
 		if up != "" && down != "" {
 			return fmt.Sprintf("up=%s/par=%s/down=%s/%s", up, s.Kind, down, symptom)
+		}
+	}
+	if c.Term.Kind == "index" {
+		for _, s := range c.Stages {
+			if s.Kind == "reent" {
+				return "reentrant-index-access/" + symptom
+			}
 		}
 	}
 	for _, s := range c.Stages { // a lazy pipeline that is traversed more than once
@@ -1328,8 +1578,14 @@ func cmdC06(seed int64, tier, outDir string) {
 		sum.Count("terminal", c.Term.Kind)
 		for _, s := range c.Stages {
 			sum.Count("stage_kinds", s.Kind)
-			if s.Kind == "map" || s.Kind == "accept" {
+			if c6IsPar(s.Kind) {
 				sum.Count("cost_profile", s.Cost)
+			}
+			if strings.HasPrefix(s.Kind, "esc") {
+				sum.Count("escaping_lists", s.Kind)
+			}
+			if s.Kind == "nest" {
+				sum.Count("nested_per_item_lists", s.Sub[0].Kind+" consumed by "+s.NC)
 			}
 			if s.Kind == "cross" || s.Kind == "merge" || s.Kind == "concat" {
 				if len(s.Sub) == 0 {
@@ -1394,10 +1650,13 @@ func cmdC06(seed int64, tier, outDir string) {
 			anySwitch, merges, otherCalls := false, false, 0
 			c6Walk(append(append([]C6Stage{}, c.Stages...), c.Term), func(sp *C6Stage, _ int) {
 				s := *sp
-				if s.Kind == "map" || s.Kind == "accept" {
-					if res.Gids[s.ID] >= 2 {
-						switched[s.ID] = true
+				if c6IsPar(s.Kind) {
+					if res.Gids[s.parID()] >= 2 {
+						switched[s.parID()] = true
 						anySwitch = true
+					}
+					if s.Kind != "map" && s.Kind != "accept" {
+						otherCalls++
 					}
 				} else if c6Calls(s.Kind, s) {
 					otherCalls++
@@ -1426,7 +1685,7 @@ func cmdC06(seed int64, tier, outDir string) {
 			}
 			extra := map[string]any{"gomaxprocs": run.procs, "switched_stage_ids": sortedIntKeys(switched)}
 			if res.Hang {
-				addViolation(c, switched, "hang", "evaluation did not finish within 30 s", c6ObsString(ref, refOK), "no result", caseID, extra)
+				addViolation(c, switched, "hang", "evaluation did not finish within 90 s", c6ObsString(ref, refOK), "no result", caseID, extra)
 				continue
 			}
 			if res.Crash {
